@@ -3,8 +3,8 @@
 # in a scratch worktree and run the checks against it.
 set -u
 export GOFLAGS=-mod=mod GOPROXY=off GOSUMDB=off GOTOOLCHAIN=local VC_RETRY=${VC_RETRY:-30}
-ID=$1; K=$2; shift 2
-RAW=/verif/seeded_raw/$ID
+RAWN=$1; ID=$(echo $1 | cut -c1-3); K=$2; shift 2
+RAW=/verif/seeded_raw/$RAWN
 S=/tmp/seedwt-$ID-$K
 git -C /repo worktree remove --force $S 2>/dev/null; rm -rf $S
 git -C /repo worktree add -q --detach $S HEAD || exit 2
